@@ -287,6 +287,47 @@ def check_collapse(prop: str, res: Result, repo: Repo, want=("R-INTERVAL", "R-CO
             except Exception:
                 pass
     live = [(s, o) for s, o in pre_paths if o is None]
+    # early exits: collapsing may be skipped only when there is nothing to collapse (no candles, no timeframe, an undated first candle);
+    # any other early return leaves candles in the list that were never given their bucket label
+    import re as _re
+
+    for s, o in pre_paths:
+        if o is None or not isinstance(o[0], ast.Return):
+            continue
+        reasons = []
+        for f in s.facts:
+            neg = isinstance(f, tuple) and f[0] == "not"
+            g = f[1] if neg else f
+            atom_ = None
+            if isinstance(g, tuple) and g[0] == "truthy":
+                atom_ = g[1] if isinstance(g[1], tuple) else poly._single_atom(g[1]) if hasattr(g[1], "atoms") else None
+            if neg and atom_ is not None and atom_[-1] in ("candles", "timeframe"):
+                reasons.append("nothing to collapse")
+            elif neg and isinstance(g, tuple) and g[0] == "nonempty":
+                reasons.append("nothing to collapse")
+            elif not neg and isinstance(g, tuple) and g[0] == "isnone":
+                reasons.append("undated")
+            elif neg and isinstance(g, tuple) and g[0] in ("present-ts",):
+                reasons.append("undated")
+            elif isinstance(g, tuple) and g[0] == "opaque":
+                txt = str(g[1]).replace(" ", "")
+                m_ = _re.fullmatch(r"len\(self\.candles\)(<|<=|==)(\d+)", txt)
+                if m_ and not neg:
+                    op, k = m_.group(1), int(m_.group(2))
+                    if (op == "<" and k >= 2) or (op == "<=" and k >= 1) or (op == "==" and k >= 1):
+                        reasons.append(("holds-with-candles", g[1]))
+                    else:
+                        reasons.append("nothing to collapse")
+                elif not any(r in ("nothing to collapse", "undated") for r in reasons):
+                    reasons.append(("unknown", g[1]))
+        if any(r in ("nothing to collapse", "undated") for r in reasons):
+            continue
+        wit = next((r for r in reasons if isinstance(r, tuple) and r[0] == "holds-with-candles"), None)
+        if wit is not None:
+            res.fail("R-INTERVAL", finding(prop, "R-INTERVAL", cc, o[0], f"collapse_candles returns early under `{wit[1]}`, which holds while the list still has a candle: that candle keeps its raw timestamp (never moved to its bucket's label), and is converted / read / merged later under the wrong label", construct=f"collapse: early return under {wit[1]}"))
+        elif "R-INTERVAL" in want:
+            unk = next((r[1] for r in reasons if isinstance(r, tuple)), "an unconditional return")
+            res.errors.append(f"{cc.where} R-INTERVAL collapse_candles: early return under `{unk}`: cannot decide that nothing is left un-collapsed")
     if "R-INTERVAL" in want:
         for s, _ in live:
             stt, ent, tfv = s.env.get(START), s.env.get(END), s.env.get(TFN)
